@@ -558,7 +558,7 @@ def frame(draw, parse_only=False):
 # ------------------------------------------------------------------------------------------------
 # top-level cases
 
-OPTS = st.fixed_dictionaries({'svc_explicit': st.booleans(), 'fo_style': st.sampled_from(['fields', 'ncp', 'decoding']),
+OPTS = st.fixed_dictionaries({'svc_explicit': st.booleans(), 'fo_style': st.sampled_from(['fields', 'ncp', 'decoding', 'auto', 'auto']),
                               'cmd_explicit': st.booleans(), 'app_explicit': st.booleans(), 'cpf_count0': st.booleans(),
                               'typed_kw': st.booleans()})
 
